@@ -3,7 +3,7 @@ from checks.server_common import *
 
 PROP = "C05"
 CONE = ["Server/ServerModel.v", "Server/ServerProofs.v", "Props/C05.v", "Dic/RestoreProofs.v", "Kkc/Compose.v", "Props/C01.v", "Props/C03.v", "Props/C17.v",
-        "Server/Protocol.v", "Server/ConcModel.v", "Server/ConcProofs.v", "Props/C14.v", "Gen/Protocol.v"]
+        "Server/Protocol.v", "Server/ConcModel.v", "Server/ConcProofs.v", "Server/ConcAtomic.v", "Props/C14.v", "Gen/Protocol.v"]
 THEOREMS = ["C05_init_wf", "C05_step_safe", "C05_no_panic", "C05_fuel_irrelevant", "C05_answer_depends_on_data_only", "C05_no_deadlock"]
 
 ODD_STRINGS = ["", " ", "\n", "\t", "あ い", "漢字", "ABC", "abc", "ー", "ゔ", "１２３", "😀", "a" * 300, "あ" * 120, "\u0000", "　", "き\nあ\ty\t/ア行五段/\n;", "/", ";", "'\"\\"]
